@@ -636,6 +636,120 @@ class Interp:
             return vbool(nm == "Some")
         return None
 
+    def nom_models(self, cs, args, d):
+        """the handful of nom 7 combinators the period grammar is written with, on concrete input strings: parser values are kept as
+        terms, applying one runs the argument parsers / closures through call_closure (library knowledge, like the Vec / HashMap models)"""
+        fn = cs.fn or ""
+        nm = cs.name or fn
+        if not (fn.startswith("nom::") or nm.startswith("nom::")):
+            return None
+        m = fn.rsplit("::", 1)[-1]
+
+        def nerr(kind):
+            return Val("adt", [Val("unknown", "nom::Err(%s)" % kind)], ("core::result::Result", "Err"))
+
+        def apply(parser, inp):
+            """run a parser VALUE (fn item, closure, or a combinator term built below) on the str `inp`: Result value or None"""
+            p = parser.deref()
+            if p.k == "adt" and isinstance(p.extra, tuple) and p.extra[0] == "nom":
+                return run_term(p, inp)
+            r_ = self.call_closure(cs, parser, [Val("ref", vstr(inp))])
+            return r_.deref() if r_ is not None else None
+
+        def split_ok(res):
+            res = res.deref() if res is not None else None
+            if res is None or res.k != "adt" or not res.extra:
+                return None
+            if res.extra[1] == "Err":
+                return ("Err", res)
+            if res.extra[1] == "Ok" and res.v and res.v[0].deref().k == "tuple" and len(res.v[0].deref().v) == 2 and res.v[0].deref().v[0].deref().k == "str":
+                t_ = res.v[0].deref()
+                return ("Ok", t_.v[0].deref().v, t_.v[1])
+            return None
+
+        def run_term(p, inp):
+            kind = p.extra[1]
+            if kind in ("take_while_m_n", "take_while1", "take_while"):
+                lo, hi, pred = p.v
+                n_ = 0
+                while n_ < len(inp) and (hi is None or n_ < hi):
+                    rb = self.call_closure(cs, pred, [Val("char", inp[n_])]).deref()
+                    if rb.k != "bool":
+                        return None
+                    if not rb.v:
+                        break
+                    n_ += 1
+                if n_ < lo:
+                    return nerr(kind)
+                return ok(Val("tuple", [vstr(inp[n_:]), vstr(inp[:n_])]))
+            if kind == "map_res":
+                parser, f_ = p.v
+                s1 = split_ok(apply(parser, inp))
+                if s1 is None:
+                    return None
+                if s1[0] == "Err":
+                    return s1[1]
+                r2 = self.call_closure(cs, f_, [s1[2]]).deref()
+                if r2.k == "adt" and r2.extra and r2.extra[1] == "Ok":
+                    return ok(Val("tuple", [vstr(s1[1]), r2.v[0]]))
+                if r2.k == "adt" and r2.extra and r2.extra[1] == "Err":
+                    return nerr("MapRes")
+                return None
+            if kind == "map":
+                parser, f_ = p.v
+                s1 = split_ok(apply(parser, inp))
+                if s1 is None:
+                    return None
+                if s1[0] == "Err":
+                    return s1[1]
+                return ok(Val("tuple", [vstr(s1[1]), self.call_closure(cs, f_, [s1[2]])]))
+            if kind in ("fold_many1", "fold_many0"):
+                parser, init, step = p.v
+                acc = self.call_closure(cs, init, [])
+                n_ok = 0
+                cur_ = inp
+                for _ in range(200):
+                    s1 = split_ok(apply(parser, cur_))
+                    if s1 is None:
+                        return None
+                    if s1[0] == "Err":
+                        if "Failure" in repr(s1[1]):
+                            return s1[1]
+                        break
+                    if s1[1] == cur_:
+                        return nerr("Many")
+                    acc = self.call_closure(cs, step, [acc, s1[2]])
+                    cur_ = s1[1]
+                    n_ok += 1
+                if kind == "fold_many1" and n_ok == 0:
+                    return nerr("Many1")
+                return ok(Val("tuple", [vstr(cur_), acc]))
+            return None
+        # constructors: the parser as a term
+        if fn == "nom::bytes::complete::take_while_m_n" and len(d) == 3 and d[0].k == d[1].k == "int":
+            return Val("adt", [d[0].v, d[1].v, args[2]], ("nom", "take_while_m_n"))
+        if fn in ("nom::bytes::complete::take_while1", "nom::bytes::complete::take_while") and len(d) == 1:
+            return Val("adt", [1 if fn.endswith("1") else 0, None, args[0]], ("nom", "take_while1"))
+        if fn in ("nom::combinator::map_res", "nom::combinator::map") and len(args) == 2:
+            return Val("adt", [args[0], args[1]], ("nom", m))
+        if fn in ("nom::multi::fold_many1", "nom::multi::fold_many0") and len(args) == 3:
+            return Val("adt", [args[0], args[1], args[2]], ("nom", m))
+        # digit1 & friends applied directly (or through a fn value)
+        if nm.startswith("nom::character::complete::digit1") or fn.startswith("nom::character::complete::digit1"):
+            if d and d[0].k == "str":
+                inp = d[0].v
+                n_ = 0
+                while n_ < len(inp) and inp[n_] in "0123456789":
+                    n_ += 1
+                return ok(Val("tuple", [vstr(inp[n_:]), vstr(inp[:n_])])) if n_ else nerr("Digit")
+            return None
+        # applying a combinator term: `<term>::{closure#0}(&mut parser, (input,))`
+        if "{closure" in nm and d and d[0].k == "adt" and isinstance(d[0].extra, tuple) and d[0].extra[0] == "nom" and len(d) > 1:
+            inp = d[1].v[0].deref() if d[1].k == "tuple" and d[1].v else d[1]
+            if inp.k == "str":
+                return run_term(d[0], inp.v)
+        return None
+
     def fmt_models(self, cs, args, d):
         """format!/to_string of concrete values, IP address parsing, integer byte views — what the name-building code is made of"""
         fn = cs.fn or ""
@@ -682,6 +796,27 @@ class Interp:
             return vstr(out)
         if fn == "core::hint::must_use" and args:
             return args[0]
+        r_nom = self.nom_models(cs, args, d)
+        if r_nom is not None:
+            return r_nom
+        if fn.startswith("core::num::<impl u") and len(d) == 2 and d[0].k == d[1].k == "int" and m in ("checked_mul", "checked_add", "checked_sub", "saturating_mul", "saturating_add", "saturating_sub", "wrapping_add", "wrapping_mul"):
+            bits = {"u8": 8, "u16": 16, "u32": 32, "u64": 64, "usize": 64, "u128": 128}.get(fn[len("core::num::<impl "):].split(">", 1)[0], 64)
+            x, y = d[0].v, d[1].v
+            val = {"mul": x * y, "add": x + y, "sub": x - y}[m.rsplit("_", 1)[1]]
+            if m.startswith("checked"):
+                return some(vint(val)) if 0 <= val < 2 ** bits else NONE_V
+            if m.startswith("saturating"):
+                return vint(min(max(val, 0), 2 ** bits - 1))
+            return vint(val % (2 ** bits))
+        if fn in ("core::str::<impl str>::parse",) and d and d[0].k == "str" and cs.dest is not None:
+            dty = self.body.local_ty(cs.dest["l"]) if hasattr(cs, "dest") and cs.dest else ""
+            mt = re.match(r"^core::result::Result<(u8|u16|u32|u64|usize|u128),", dty)
+            if mt:
+                bits = {"u8": 8, "u16": 16, "u32": 32, "u64": 64, "usize": 64, "u128": 128}[mt.group(1)]
+                txt = d[0].v[1:] if d[0].v.startswith("+") else d[0].v
+                if txt.isdigit() and all(ord(ch_) < 128 for ch_ in txt) and int(txt) < 2 ** bits:
+                    return ok(vint(int(txt)))
+                return Val("adt", [Val("unknown", "ParseIntError")], ("core::result::Result", "Err"))
         if fn.startswith("core::char::methods::<impl char>::") and d and d[0].k == "char":
             ch = d[0].v
             preds = {"is_ascii": ord(ch) < 128, "is_ascii_alphanumeric": ord(ch) < 128 and ch.isalnum(), "is_ascii_alphabetic": ord(ch) < 128 and ch.isalpha(),
@@ -710,6 +845,8 @@ class Interp:
             if m == "as_secs":
                 return vint(x)
             if m == "from_secs":
+                return Val("int", x, "dur")
+            if m == "new" and y == 0:
                 return Val("int", x, "dur")
         if fn.startswith(("std::collections::hash::set::HashSet::", "alloc::collections::btree::set::BTreeSet::")) and d and d[0].k == "list":
             av = [x.deref() for x in d[0].v]
